@@ -215,6 +215,15 @@ def stepItp (st : DState) (cmd : String) (args : List String) : DState × String
       match parseRat? scale with
       | some sc => (st, showRat (Amisc.Gen.snapTol sc))
       | none => (st, "bad-op")
+  -- the coincidence tolerance of the derivative routines (separate generated fragments)
+  | "itp.snaptol", [[scale, which]] =>
+      match parseRat? scale with
+      | some sc =>
+          if which == "gradient" then (st, showRat (Amisc.Gen.snapTolGradient sc))
+          else if which == "hessian" then (st, showRat (Amisc.Gen.snapTolHessian sc))
+          else if which == "predict" then (st, showRat (Amisc.Gen.snapTol sc))
+          else (st, "bad-op")
+      | none => (st, "bad-op")
   | _, _ => (st, "bad-op")
 
 def qpow (x : Rat) : Nat → Rat
